@@ -11,6 +11,10 @@ Streams
              program (so its own type of e is <= T), a tightened annotation must be accepted/rejected as
              the model's subtype says, and at run time the printed class/inspect of tK must equal the
              model interpreter's value and be a member of [[T]] (extracted `mem`).
+  c02.subhist, c02.ifc   generic classes / generic interfaces / implicit implementation (lib/c02ifc.py,
+             Model/C02_Iface.v): HISTORIES of subtype questions inside one checker run vs the extracted isub and vs
+             the same question alone in a fresh checker; programs passing generic class instances through
+             interface-typed parameters, runtime class of `s.m(..)` against the static return type.
 Internal representation = the s-expressions of ocaml/C02/main.ml as nested Python lists of strings.
 """
 import os
@@ -18,6 +22,7 @@ import re
 from fractions import Fraction
 import vlib
 import c02cls
+import c02ifc
 
 SUB = "c02.sub"
 PROBE = "c02.probe"
@@ -845,7 +850,28 @@ def run(ctx):
         "probed local is read from the typed AST and compared as a value set (extracted kmem over all classes of the "
         "program, Int, nil) with the extracted kannot; each executed probe's runtime class must be a member of the "
         "checker's static type and `v.name` must be the override dynamic dispatch selects (extracted resolve). "
-        "Not modelled: generics/interfaces/mixins, assignment inside class-narrowed branches (narrowIsA replaces the "
+        "GENERICS / INTERFACES (Model/C02_Iface.v, a third fragment): for ALL tables of classes K[T] (one field @item: T, "
+        "methods whose body is @item / a literal / the argument and fits the declared signature - ctab_ok) and interfaces "
+        "I[T] (method signatures over T, unions and Int String Float nil), proved: isub (K[s] <: K[t] and I[s] <: I[t] "
+        "with INVARIANT arguments as isSubtypeOfGenericNamespace does; K[s] <: I[t] and J[s] <: I[t] by the IMPLICIT "
+        "structural rule of isImplicitSubtypeOfInterface/checkMethodCompatibility: same-named method, same arity, "
+        "parameter contravariant, return covariant after substitution) is sound for value sets in which [[I[t]]] is "
+        "defined BEHAVIOURALLY (objects that answer every method of I[t] with a value of the declared return type) - "
+        "C02_iface_subtype_sound; a call s.m(x) through s: I[t] returns a value of the substituted return type "
+        "(C02_iface_call_preservation, C02_iface_pass_call_sound for any argument type the checker accepts for s); "
+        "the executable membership used by the streams decides those value sets (C02_iface_gmem_decided); the "
+        "specification answers the k-th question of a history as if asked alone (C02_iface_history_independent - "
+        "trivial for the model, it is the property the REAL checker is tested against). Correspondence c02.subhist: "
+        "generated tables and 4-10 related questions (same class instantiation against the same interface with "
+        "several arguments...) asked inside ONE CheckSource run in three orders and alone in a fresh checker: every "
+        "verdict must equal the extracted isub and must not depend on earlier questions. c02.ifc: generated programs "
+        "pass K::[s](item) to `def w(s: I[t])`, the probes `var t: R[t] = s.m(x)` carry the static type computed by "
+        "the extracted ret_atoms; accepted as the model says (one model-rejected call appended after the accepted "
+        "ones must be rejected), run by the binary, values vs extracted gcall, membership by extracted bmem/gmem_b. "
+        "NOT in that fragment: inheritance between generic classes, explicit `implement`, mixins, bounded/variant "
+        "type parameters, several type parameters, methods whose signature mentions class or interface types "
+        "(so the checker's recursion guard for self-referential interfaces is outside the model), closures. "
+        "Not modelled: mixins, assignment inside class-narrowed branches (narrowIsA replaces the "
         "local's type by C without intersecting, so `var a: Bar; if a <: Foo; a = Foo(); end` is accepted and leaves a Foo "
         "in a Bar-typed local - seen by reading, outside the stream), the real normalisation of intersections (only "
         "value sets are compared), narrowing by `==` with non-nil operands, std-library return types (C28 covers "
@@ -856,6 +882,9 @@ def run(ctx):
         "Float values restricted to small dyadic rationals (exact in binary64); strings to [a-z]*",
         "c02.cls: Python generator/printer of class programs (lib/c02cls.py), the conversion of the checker's types.Type "
         "tree to the model's type syntax (harness/cmd/c02 tySx), runtime class observed through `y.class.name`",
+        "c02.subhist / c02.ifc: Python generator/printer of tables, questions and programs (lib/c02ifc.py), attribution "
+        "of checker diagnostics to questions by source line (harness/cmd/c02 -extra diags), a verdict is `reject` when "
+        "the message says cannot be assigned / does not implement interface / expected type .. for parameter",
         "the model's assignment rule additionally requires the outer chain levels to accept the assigned type (never fails on chains built by narrowing)",
     ]
     ctx.run_proof_gate()
@@ -912,6 +941,8 @@ def run(ctx):
                     value_mismatches_attributed_to_C08_typed_float_opcodes=tot("foreign_c08")))
     # ---- c02.cls
     c02cls.run_stream(ctx, elk, h, m)
+    # ---- c02.subhist, c02.ifc
+    c02ifc.run_streams(ctx, elk, h, m)
     if stg["programs"] and stg["executed"] * 4 < stg["programs"]:
         ctx.broke("correspondence %s: fewer than a quarter of the generated programs were executed (%d of %d; model rejected %d)"
                   % (PROBE, stg["executed"], stg["programs"], stg["model_rejected"]))
